@@ -70,7 +70,7 @@ Fixpoint run_strand (fuel : nat) (s : rstrand) (nu n : nat) (acc : list rstrand)
     | TRace tg1 e1 tg2 e2 x k =>
         Some (Some (mkRS u en (RRace (SWait n) (SWait (S n)) x k) st), acc, nu, S (S n),
               ro_app o (mkRO [mkRE tg1 (eval en e1) [] n 1; mkRE tg2 (eval en e2) [] (S n) 1] []))
-    | TAbortT _ k | TAbortC _ k | TLegReq _ _ _ k => run_strand f (mkRS u en (RRun k) st) nu n acc o      (* outside the fragment *)
+    | TAbortT _ k | TAbortC _ k | TLegReq _ _ _ k | TBothL _ _ _ _ _ _ k => run_strand f (mkRS u en (RRun k) st) nu n acc o      (* outside the fragment *)
     | TYield _ k => run_strand f (mkRS u en (RRun k) st) nu n acc o
     | THost _ _ _ _ _ k => run_strand f (mkRS u en (RRun k) st) nu n acc o (* never in source programs *)
     end
@@ -343,7 +343,7 @@ Fixpoint task_abort_free (t : task) : bool :=
   | TBoth _ _ _ _ _ _ k | TRace _ _ _ _ _ k => task_abort_free k
   | TForEach _ _ _ b k => task_abort_free b && task_abort_free k
   | TSpawn c _ k => task_abort_free c && task_abort_free k
-  | TAbortT _ _ | TAbortC _ _ | TLegReq _ _ _ _ => false
+  | TAbortT _ _ | TAbortC _ _ | TLegReq _ _ _ _ | TBothL _ _ _ _ _ _ _ => false
   | THost _ _ _ _ _ _ => false
   end.
 Fixpoint cmd_abort_free (c : cmd) : bool :=
